@@ -306,7 +306,8 @@ def _splits(tier):
             combos = [(0, 'pd', 'dn'), (1, 'ns', 'dn'), (3, 'pd', 'ps'), (8, 'dn', 'ns')]
         else:
             pcs = [('pd', 'pd'), ('ns', 'dn'), ('dn', 'ps'), ('ps', 'ns')]
-            combos = [(sh, pa, pb) for sh in range(len(SHAPES)) for pa, pb in pcs]
+            # two of the four flag-pair combinations per shape (alternating): the full product does not fit the wall budget
+            combos = [(sh, pa, pb) for sh in range(len(SHAPES)) for pa, pb in (pcs[:2] if sh % 2 == 0 else pcs[2:])]
         for sh, pa, pb in combos:
             for bits in range(4):
                 pre = ' and '.join(('' if bits & (1 << i) else 'not ') + v for i, v in enumerate(('pa1', 'pb1')))
